@@ -49,3 +49,8 @@ Theorem C19_good_connection_serves_all : forall es,
   let s' := fold_left rstep (Connect true :: repeat (Serve true) (length (queue s))) s in
   served s' = enqueued es /\ parked s' = None /\ queue s' = [].
 Proof. exact good_connection_serves_all. Qed.
+
+(* the Duration multiplication in the generator never overflows for the client's parameters *)
+Theorem C19_client_never_panics : forall script max_ms max_count k, max_ms < 2 ^ 64 ->
+  snd (retry_loop (client_backoff max_ms max_count) script k) <> FPanic.
+Proof. exact client_never_panics. Qed.
